@@ -150,11 +150,12 @@ def check(run):
                    "module/directory suites are ordered by (rank, name) as written in the code"]
     run.prove(extra_targets=["theories/Base/Util.vo", "theories/Model/Loader.vo"])
 
-    # ---- F16: observed on the implementation on every run; decides which variant of the model the code is compared with
+    # ---- F16 (fixed in /repo): the code is compared with the FIXED variant of the model; the witness is replayed on every run
+    # and a companion directory of a hidden module that is loaded again is a violation (it is no longer a known finding)
     leak, wobs, whits = leaks()
-    fixed = not leak
-    run.notes.append("F16 witness: companion directory of a hidden module is %s by the loader under test -> model variant fixed=%s"
-                     % ("LOADED" if leak else "skipped", fixed))
+    fixed = True
+    run.notes.append("F16 witness: companion directory of a hidden module is %s by the loader under test; model variant fixed=True"
+                     % ("LOADED" if leak else "skipped"))
     for sig, text in whits:
         if sig not in OUT_OF_SCOPE:
             run.violation("oracle:" + sig, text, {"tree": F16_WITNESS, "rank0": 1, "observed": wobs})
